@@ -41,5 +41,35 @@ fn main() {
         drop(handles);
         let _ = fs::remove_dir_all(path.parent().unwrap());
     } }
+    // one log object shared by several writers (sessions, tasks and thread appends all go through one EventLog): eight threads, 1500
+    // frames each, of lengths around and above the writer's buffer size - afterwards the file consists of whole frames only, each
+    // exactly once. A schedule search, not an enumeration: it can only ever show a torn or interleaved frame, never prove their absence.
+    {
+        let path = base.join("shared").join("events.jsonl");
+        let log = match EventLog::new(&path) { Ok(l) => std::sync::Arc::new(l), Err(_) => { let _ = fs::remove_dir_all(&base); return; } };
+        let mut joins = Vec::new();
+        for t in 0..8usize { let log = log.clone(); joins.push(std::thread::spawn(move || {
+            for k in 0..1500usize {
+                let pad = match k % 5 { 0 => 10, 1 => 300, 2 => 4000, 3 => 9000, _ => 60 };
+                let line = format!("{{\"writer\":{t},\"frame\":{k},\"padding\":\"{}\"}}", "x".repeat(pad));
+                let _ = log.append(&Event { line });
+            }
+        })); }
+        for j in joins { let _ = j.join(); }
+        let text = fs::read_to_string(&path).unwrap_or_default();
+        let mut seen = std::collections::BTreeSet::new(); let mut bad: Option<String> = None;
+        for (n, l) in text.split('\n').enumerate() {
+            if l.is_empty() { if n + 1 != text.split('\n').count() { bad = Some(format!("line {n} is empty")); break; } continue; }
+            let ok = l.starts_with("{\"writer\":") && l.ends_with("\"}") && l.matches("\"writer\"").count() == 1;
+            if !ok { bad = Some(format!("line {n} is not one whole frame: {:?}...", &l[..l.len().min(80)])); break; }
+            let key: String = l.chars().take_while(|c| *c != 'p').collect();
+            if !seen.insert(key) { bad = Some(format!("line {n} repeats a frame")); break; }
+        }
+        if bad.is_none() && (seen.len() != 8 * 1500 || !text.ends_with('\n')) { bad = Some(format!("{} whole frames in the file, {} were appended", seen.len(), 8 * 1500)); }
+        if let Some(b) = bad {
+            println!("WITNESS {{\"function\": \"EventLog::append\", \"writers\": 8, \"frames_per_writer\": 1500, \"problem\": \"concurrent appends through one log object did not leave whole, newline-terminated frames: {}\"}}", b.replace('"', "'"));
+            let _ = fs::remove_dir_all(&base); return;
+        }
+    }
     let _ = fs::remove_dir_all(&base);
 }
